@@ -372,8 +372,9 @@ fn walk_case(id: &str, bin: &str, world: &World, seed: u64, r: &mut ScnResult) -
             let (got, _) = triples_of_report(&text, &t);
             let want = report::triples(&expected);
             if got != want {
-                let missing: Vec<_> = want.iter().filter(|x| !got.contains(x)).take(3).collect();
-                let extra: Vec<_> = got.iter().filter(|x| !want.contains(x)).take(3).collect();
+                let (m, e) = report::multiset_minus(&want, &got);
+                let missing: Vec<_> = m.iter().take(3).collect();
+                let extra: Vec<_> = e.iter().take(3).collect();
                 return Some((
                     "binary_report_differs_from_union".into(),
                     format!(
